@@ -24,6 +24,13 @@ fn main() {
     }
     match args[1].as_str() {
         "check" => std::process::exit(check(&args[2])),
+        "worker" => {
+            match args[2].as_str() {
+                "C18" => props::c18::serve(),
+                _ => usage(),
+            }
+            std::process::exit(0)
+        }
         "replay" => {
             let findings = Findings::load();
             match run_replay_file(Path::new(&args[2])) {
